@@ -5,6 +5,7 @@ package parser
 import (
 	"errors"
 
+	"github.com/moorara/algo/grammar"
 	"github.com/moorara/algo/lexer"
 	"github.com/moorara/algo/parser/lr"
 
@@ -31,7 +32,27 @@ func interior(n *rnode, out *[]*rnode) {
 // position) becomes the value of the head.
 func harnessLREvaluate() {
 	k := verif.Len("k", 2, lrEvalK)
-	toks := symTokens(k)
+	lrEvaluateOn(symTokens(k))
+}
+
+// harnessLREvaluateLong: the same on long sentences (the shapes and sizes of harnessLRLong, one token
+// kind arbitrary): values and positions of symbols that stay on the stack across many shifts - the "=" of a
+// long rule, opening brackets, every "|" of a long alternation - must still be their own when they are reduced.
+func harnessLREvaluateLong() {
+	s := verif.Pick("shape", lrLongShapes)
+	n := lrLongNs[verif.Pick("size", len(lrLongNs))]
+	kinds := lrLongShape(s, n)
+	toks := make([]lexer.Token, len(kinds))
+	for i, kd := range kinds {
+		toks[i] = lexer.Token{Terminal: grammar.Terminal(kd), Lexeme: "t" + vitoa(i), Pos: lexer.Position{Filename: "f", Offset: 10 * i, Line: 1 + i/4, Column: 1 + 7*(i%4)}}
+	}
+	if verif.Pick("where", 2) == 1 {
+		toks[len(toks)/2].Terminal = grammar.Terminal(verif.Enum("t", lrTermNames...))
+	}
+	lrEvaluateOn(toks)
+}
+
+func lrEvaluateOn(toks []lexer.Token) {
 	tree, _ := refParse(kindsOf(toks))
 	if tree == nil {
 		return // rejected inputs are the subject of harnessLRParse
